@@ -1,4 +1,4 @@
-"""C15 - VTF save/read round trip (DESIGN.md section 2, C15).  Part 1: helpers, generators, builders."""
+"""C15 - VTF save/read round trip: metadata, frame structure, pixels vs. reference quantiser, resources, sheets, bounds, mipmaps (DESIGN.md section 2, C15)."""
 from __future__ import annotations
 
 import hashlib
